@@ -251,33 +251,38 @@ Theorem C03_forgotten_descriptor_no_event : forall C, c_fix_moveout C = true -> 
 Proof. exact read_one_forgotten. Qed.
 Print Assumptions C03_forgotten_descriptor_no_event.
 
-(* The loop head on the first record after a directory IN_MOVED_FROM that is not its IN_MOVED_TO: the key, the
+(* The loop head on the first record after a directory IN_MOVED_FROM that is not its IN_MOVED_TO arriving on a descriptor
+   the reader knows (so: anything else, also the IN_MOVED_TO delivered through a forgotten descriptor): the key, the
    descriptor entry and the kernel watch of the directory and of everything below it are gone. *)
 Theorem C03_moveout_forgets : forall C, c_fix_moveout C = true -> forall r k e c p r0 k0,
-  pend r = Some (c, p) -> is_moved_to (k_mask e) && N.eqb (k_cookie e) c = false ->
+  pend r = Some (c, p) -> is_moved_to (k_mask e) && N.eqb (k_cookie e) c && amem N.eqb (k_wd e) (pfw r) = false ->
   settle_pending C r k e = (r0, k0) ->
   forall q wd, tgt p q = true -> alookup beqb q (wfp r) = Some wd -> alookup N.eqb wd (pfw r) = Some q ->
     alookup beqb q (wfp r0) = None /\ alookup N.eqb wd (pfw r0) = None /\ has_wd k0 wd = false.
 Proof. exact moveout_forgets. Qed.
 Print Assumptions C03_moveout_forgets.
 
-(* No phantom events, from the first record processed after the IN_MOVED_FROM on: with consistent, normalised tables
-   and the IN_MOVED_FROM of directory p pending, any batch of quiet records (everything but IN_MOVED_TO and
-   IN_CREATE|IN_ISDIR, which can legitimately re-create the name) whose first record is not the matching IN_MOVED_TO
-   yields no raw event with a path below p and leaves no descriptor recorded at or below p. *)
+(* No phantom events, from the first record processed after the IN_MOVED_FROM on: with consistent, normalised tables,
+   the IN_MOVED_FROM of directory p pending and the next record not p's IN_MOVED_TO on a known descriptor (the directory
+   has left the tree), any batch of records that are quiet (everything but IN_MOVED_TO and IN_CREATE|IN_ISDIR, which can
+   legitimately re-create the name) or arrive on descriptors the reader does not know yields no raw event with a path
+   below p and leaves no descriptor recorded at or below p.  No side condition about forgotten descriptors is left:
+   p's own IN_MOVED_TO delivered through a forgotten descriptor is such a first record. *)
 Theorem C03_no_phantom_after_moveout : forall C t r k acc c p e b r' k' acc',
   c_fix_moveout C = true -> consistent r -> pfw_norm r -> pend r = Some (c, p) ->
-  is_moved_to (k_mask e) && N.eqb (k_cookie e) c = false ->
-  Forall quiet (e :: b) ->
+  is_moved_to (k_mask e) && N.eqb (k_cookie e) c && amem N.eqb (k_wd e) (pfw r) = false ->
+  Forall (quiet_or_unknown r) (e :: b) ->
   read_batch C t (r, k, acc) (e :: b) = Done (r', k', acc') ->
   clean p r' /\ exists new, acc' = acc ++ new /\ Forall (fun ev => under p (r_path ev) = false) new.
 Proof. exact no_phantom_after_moveout. Qed.
 Print Assumptions C03_no_phantom_after_moveout.
 
-(* ... and it stays so over any further batches of quiet records *)
-Theorem C03_no_phantom_clean : forall C, c_fix_moveout C = true -> forall p t b r k acc r' k' acc',
-  clean p r -> Forall quiet b -> read_batch C t (r, k, acc) b = Done (r', k', acc') ->
-  clean p r' /\ exists new, acc' = acc ++ new /\ Forall (fun ev => under p (r_path ev) = false) new.
+(* ... and it stays so over any further batches of such records ([r0]: any earlier state bounding the descriptor table) *)
+Theorem C03_no_phantom_clean : forall C, c_fix_moveout C = true -> forall p t r0 b r k acc r' k' acc',
+  clean p r -> (forall wd q, alookup N.eqb wd (pfw r) = Some q -> alookup N.eqb wd (pfw r0) = Some q) ->
+  Forall (quiet_or_unknown r0) b -> read_batch C t (r, k, acc) b = Done (r', k', acc') ->
+  clean p r' /\ (forall wd q, alookup N.eqb wd (pfw r') = Some q -> alookup N.eqb wd (pfw r0) = Some q) /\
+  exists new, acc' = acc ++ new /\ Forall (fun ev => under p (r_path ev) = false) new.
 Proof. exact batch_no_phantom. Qed.
 Print Assumptions C03_no_phantom_clean.
 
@@ -292,6 +297,20 @@ Theorem C03_phantom_repaired :
 Proof. exact phantom_repaired. Qed.
 Print Assumptions C03_phantom_repaired.
 
+(* Two directories leave the tree in one burst, the second INTO the first (mv R/a O/x; mv R/b O/x/b read in one batch): the
+   second IN_MOVED_TO arrives through R/a's still existing watch, a descriptor the reader has just forgotten.  The first
+   version of the repair (candidate cleared on any IN_MOVED_TO with the cookie - not expressible with the flags) then kept
+   R/b's watch and delivered mkdir O/x/b/z as DirCreated(R/b/z); found by this check's thorough tier, regression case
+   corpus/C03/f10-nested-moveout.json.  Current code: sound, no event below /R/a or /R/b, both sub-trees forgotten. *)
+Theorem C03_nested_moveout_repaired :
+  exists s0 s obs, pinit fx_cfg ph_world = Some s0 /\ prun fx_cfg s0 gap_history [] = Done (s, obs) /\
+    sound_along fx_cfg s0 [] gap_history = true /\
+    forallb (fun ev => negb (under gap_Ra (ev_src ev)) && negb (under gap_Rb (ev_src ev))) (p_out s) = true /\
+    wfp (p_r s) = [(ph_R, 1%N)] /\ pfw (p_r s) = [(1%N, ph_R)] /\ pend (p_r s) = None /\
+    has_wd (p_k s) 2 = false /\ has_wd (p_k s) 3 = false.
+Proof. exact nested_moveout_repaired. Qed.
+Print Assumptions C03_nested_moveout_repaired.
+
 (* History-level soundness of the current code (all four reader repairs on). *)
 Definition C03_sound_full_current : Prop :=
   forall P w s0 h, pc_filter P = None -> c_mask (pc_reader P) = WATCHDOG_ALL ->
@@ -299,17 +318,16 @@ Definition C03_sound_full_current : Prop :=
     c_fix_moveout (pc_reader P) = true ->
     pinit P w = Some s0 -> sound_along P s0 [] h = true.
 
-(* STILL FALSE - a hole in the repair: `mv R/a O/x; mv R/b O/x/b` read in one batch.  The second IN_MOVED_TO arrives
-   through R/a's still existing kernel watch, i.e. on a descriptor the reader has just forgotten: the record is skipped
-   but has already cancelled the pending candidate, R/b keeps its watch and its stale path, and mkdir O/x/b/z is
-   delivered as DirCreated(R/b/z).  (The side condition of C03_no_phantom_after_moveout - the next record is not the
-   matching IN_MOVED_TO - is exactly what fails.) *)
-Theorem C03_sound_current_refuted_nested_moveout :
-  exists s0 s obs, pinit fx_cfg ph_world = Some s0 /\ prun fx_cfg s0 gap_history [] = Done (s, obs) /\
-    In (mk DirCreated gap_Rbz []) (p_out s) /\ fexists gap_Rbz (w_fs (p_world s)) = false /\
-    sound_along fx_cfg s0 [] gap_history = false.
-Proof. exact moveout_gap. Qed.
-Print Assumptions C03_sound_current_refuted_nested_moveout.
+(* Still false, by the one remaining known finding F10e (not a move-out): mkdir R/c; mv R/c R/b; mkdir R/c back to back -
+   the name of a directory renamed before its first read is re-used before that read; later mv R/b R/c/c; mkdir R/c/b is
+   delivered as DirCreated(R/c/c/b). *)
+Theorem C03_sound_current_refuted_f10e :
+  exists s0 s obs, pinit fx_cfg ph_world = Some s0 /\ prun fx_cfg s0 f10e_history [] = Done (s, obs) /\
+    In (mk DirCreated e_Rccb []) (p_out s) /\ fexists e_Rccb (w_fs (p_world s)) = false /\
+    fexists e_Rcb (w_fs (p_world s)) = true /\
+    sound_along fx_cfg s0 [] f10e_history = false.
+Proof. exact sound_current_refuted_f10e. Qed.
+Print Assumptions C03_sound_current_refuted_f10e.
 
 Theorem C03_sound_full_current_refuted : ~ C03_sound_full_current.
 Proof. exact sound_full_current_false. Qed.
@@ -446,7 +464,7 @@ Proof. vm_compute. repeat split. Qed.
 Example C03_moveout_nonvacuous :
   exists s e b, mo_state = Some s /\ k_queue (p_k s) = e :: b /\
     pend (p_r s) = Some (1%N, ph_Rd) /\ consistent (p_r s) /\ pfw_norm (p_r s) /\
-    is_moved_to (k_mask e) && N.eqb (k_cookie e) 1 = false /\ Forall quiet (e :: b) /\ length b = 2%nat /\
+    is_moved_to (k_mask e) && N.eqb (k_cookie e) 1 && amem N.eqb (k_wd e) (pfw (p_r s)) = false /\ Forall quiet (e :: b) /\ length b = 2%nat /\
     alookup beqb ph_Rd (wfp (p_r s)) = Some 2%N /\ alookup N.eqb 2%N (pfw (p_r s)) = Some ph_Rd /\ has_wd (p_k s) 2 = true /\
     exists r' k', read_batch (pc_reader fx_cfg) (w_fs (p_world s)) (p_r s, p_k s, []) (e :: b) = Done (r', k', []) /\
                   wfp r' = [(ph_R, 1%N)] /\ has_wd k' 2 = false.
